@@ -11,25 +11,25 @@ use serde::Deserialize;
 #[derive(Clone, Debug, Deserialize, Eq, PartialEq)]
 pub struct Eip1559Transaction {
     /// The chain ID for the transaction.
-    #[serde(rename = "chainId", with = "ethnum::serde::permissive")]
+    #[serde(rename = "chainId", with = "serialization::uint")]
     pub chain_id: U256,
     /// The nonce for the transaction.
-    #[serde(with = "ethnum::serde::permissive")]
+    #[serde(with = "serialization::uint")]
     pub nonce: U256,
     /// The maximum priority fee in Wei for the transaction.
-    #[serde(rename = "maxPriorityFeePerGas", with = "ethnum::serde::permissive")]
+    #[serde(rename = "maxPriorityFeePerGas", with = "serialization::uint")]
     pub max_priority_fee_per_gas: U256,
     /// The maximum gas price in Wei for the transaction.
-    #[serde(rename = "maxFeePerGas", with = "ethnum::serde::permissive")]
+    #[serde(rename = "maxFeePerGas", with = "serialization::uint")]
     pub max_fee_per_gas: U256,
     /// The gas limit for the transaction.
-    #[serde(with = "ethnum::serde::permissive")]
+    #[serde(with = "serialization::uint")]
     pub gas: U256,
     /// The target address for the transaction. This can also be `None` to
     /// indicate a contract creation transaction.
     pub to: Option<Address>,
     /// The amount of Ether to send with the transaction.
-    #[serde(with = "ethnum::serde::permissive")]
+    #[serde(with = "serialization::uint")]
     pub value: U256,
     /// The calldata to use for the transaction.
     #[serde(with = "serialization::bytes")]
